@@ -137,3 +137,13 @@ type OptionTree = protoprint.VerifOptionTree
 func OptionTrees(elem protoreflect.Descriptor) ([]OptionTree, error) {
 	return protoprint.VerifOptionTrees(elem)
 }
+
+// ElementsLess is the printer's sourceElements.Less on the elements of one body.
+func ElementsLess(ds []protoreflect.Descriptor, i, j int) bool {
+	return protoprint.VerifElementsLess(ds, i, j)
+}
+
+// OptionsLess is the printer's optionsByLocation.Less on the options of one element (OptionTrees order).
+func OptionsLess(elem protoreflect.Descriptor, i, j int) (bool, error) {
+	return protoprint.VerifOptionsLess(elem, i, j)
+}
